@@ -58,7 +58,7 @@ def deployments() -> list[tuple[str, float]]:
 def gen_plan(seed: int, run: int, tier: str) -> dict:
     rng = common.rng_for(seed, run, "work")
     kind = common.weighted(rng, deployments())
-    nq = rng.randint(1, 5)
+    nq = rng.randint(1, 5) if tier == "quick" else rng.randint(2, 8)
     queue = []
     for k in range(nq):
         queue.append({"qid": k, "x": round(0.05 + 0.9 * (k + 1) / (nq + 1) + rng.random() * 0.01, 6), "c": rng.choice(["a", "b", "c"]), "i": rng.randint(0, 10), "how": rng.choice(["enqueue", "enqueue", "add"]), "partial": rng.random() < 0.25})
